@@ -1,3 +1,5 @@
 SPECIFICATION Spec
+CONSTANT Written <- AllAttrs
 INVARIANT FailsRatherThanLies
 INVARIANT RoundTrip
+INVARIANT MetaRoundTrip
